@@ -93,6 +93,55 @@ CLAIMED["C02"] = dict(
               "model/implementation correspondence",
 )
 
+CLAIMED["C18"] = dict(
+    text="For every arrival history of one RTP stream (any loss, duplication, reordering, sequence and timestamp "
+         "wrap, arbitrary arrival clock) and every report instant, the model's statistics and each RTCP receiver "
+         "report carry exactly the RFC 3550 figures: exact count, expected = extended-highest - first + 1, clamped "
+         "cumulative loss, fraction lost of the interval since the previous report, extended highest sequence "
+         "number incl. wrap cycles (mod 2^32), A.8 jitter recurrence with 32-bit modular transit differences, "
+         "LSR/DLSR; every field fits its wire width so building the report never raises; figures are independent "
+         "of sequence/timestamp origins (16 theorems, all closed; the unrepaired code is refuted in Coq).",
+    design_ref="5 / C18",
+    note="Model/Stats.v (repaired code; one remote SSRC per receiver) tied to aiortc by a differential run: every "
+         "probe, every report's fields and bytes, final object fields; independent RFC 3550 oracle and a "
+         "shifted-origin re-run on the implementation. time.time() is an input. Several SSRCs per report, "
+         "RtcpReceiverInfo.parse and float rounding of real clock values are not modelled.",
+    technique="Coq proof (invariant + induction over event histories, simulation relation for origin shifts) + "
+              "extraction-based correspondence",
+)
+CLAIMED["C04"] = dict(
+    text="DTLS identity policy (validate = true iff at least one fingerprint uses a supported hash and every "
+         "supported one matches; order, unsupported entries and ASCII case irrelevant), the start() gate (CONNECTED, "
+         "SRTP sessions, pump and any hand-over or send only if handshake, fingerprint policy and SRTP profile all "
+         "passed, over all histories; a failed transport stays silent) and mirror-image SRTP key slicing for every "
+         "profile of the GENERATED table and every keying material of the right length are proved on Model/Dtls.v "
+         "(18 theorems). PARTIAL: packet integrity / tamper rejection live in OpenSSL and libsrtp and are only "
+         "observed on ~2000 real DTLS pairs per quick run.",
+    design_ref="5 / C04",
+    note="Digests, handshake script, selected profile, exported material and recv/unprotect/send outcomes are "
+         "universally quantified oracles, never axioms. Gen/Dtls.v (algorithm names, profile key/salt lengths, State "
+         "numbers) is regenerated by a fail-closed AST table extractor. Correspondence: extracted model vs the real "
+         "_validate_peer_identity (real certificate), get_key_and_salt and start/_recv_next/_send_*/stop driven by a "
+         "scripted SSL connection; real end-to-end pairs with recorded oracles.",
+    technique="Coq proof over an executable model with oracle parameters + regenerated tables + differential "
+              "correspondence + real end-to-end DTLS pairs",
+)
+CLAIMED["C07"] = dict(
+    text="Coq proofs over executable models of aiortc/rtp.py: for all well-formed values RTP packets (any extension "
+         "id map, one-/two-byte form, CSRCs, padding) and RTCP compound packets (SR/RR/SDES/BYE/RTPFB/PSFB) parse "
+         "back to themselves; a NACK denotes the same set of 16-bit numbers for every list (same list for ascending "
+         "or wrap-crossing lists); loss saturates at the signed 24-bit range and survives pack/unpack; REMB never "
+         "rounds up, has relative error below 2^-17 and preserves its SSRCs; RTX wrap/unwrap is invertible; all "
+         "parsers return a value or ValueError on every byte string (15 theorems, all closed).",
+    design_ref="5 / C07",
+    note="Model/Rtp.v and Model/Rtcp.v are hand transcriptions tied to the code by a differential run of the "
+         "extracted models against the real functions in both directions, incl. a malformed stream with every "
+         "truncation of the test .bin packets. Python str values are modelled by their UTF-8 encoding, os.urandom "
+         "padding is an input, UnicodeError counts as ValueError.",
+    technique="Coq proof (induction, bit-field lemmas, byte facts by exhaustive vm_compute) + extraction-based "
+              "correspondence + implementation round-trip oracle",
+)
+
 NOT_YET = "check not built yet in this development snapshot (planned, see DESIGN.md section 10)"
 
 
